@@ -279,6 +279,25 @@ func runC11(ctx *Ctx, c c11Case) {
 			os.Remove(filepath.Join(dir, p+".audit.json"))
 		}
 	}
+	final := c.Chain.desc()
+	if c.Mode == "inproc" {
+		// four runs inside one OS process: all; downstream again (level-0 outputs taken from disk);
+		// everything again (level-0 outputs regenerated with new records); downstream again
+		last := len(c.Chain.Levels) - 1
+		lvl := func(l int) []string {
+			out := []string{}
+			for _, x := range c.Chain.Inputs {
+				p := c.Chain.pathAt(x, l)
+				out = append(out, p, p+".audit.json")
+			}
+			return out
+		}
+		all := []string{}
+		for l := 0; l <= last; l++ {
+			all = append(all, lvl(l)...)
+		}
+		final.Rounds = [][]string{lvl(last), all, lvl(last)}
+	}
 	// ancestor records on disk before resuming
 	before := map[string]*auditJSON{}
 	for _, t := range c.Chain.tasks() {
@@ -290,7 +309,7 @@ func runC11(ctx *Ctx, c c11Case) {
 			}
 		}
 	}
-	rr := RunWorkflow(c.Chain.desc(), RunOpts{Dir: dir})
+	rr := RunWorkflow(final, RunOpts{Dir: dir})
 	ctx.Res.Eval(fmt.Sprintf("%v", c), true, c)
 	ctx.Res.Count("mode=" + c.Mode)
 	if rr.Exit != 0 {
@@ -333,7 +352,7 @@ func runC11(ctx *Ctx, c c11Case) {
 }
 
 func checkC11(ctx *Ctx) {
-	ctx.Res.Rule = "chain workflows (1-3 inputs, 2-3 levels); the same outputs produced uninterrupted and (a) by RunTo on a prefix followed by Run, (b) by a run killed at the n-th occurrence of one of 20 instrumented points, cleanup and re-run, (c) by a complete run, deletion of the last level's outputs and re-run; all cases non-trivial; distinct by (chain, mode, point). Checks: audit files of all outputs equal modulo IDs and timestamps between the two ways, records already on disk keep their ID, and each embedded ancestor record is identical to the audit file of that ancestor."
+	ctx.Res.Rule = "chain workflows (1-3 inputs, 2-3 levels); the same outputs produced uninterrupted and (a) by RunTo on a prefix followed by Run, (b) by a run killed at the n-th occurrence of one of 20 instrumented points, cleanup and re-run, (c) by a complete run, deletion of the last level's outputs and re-run, (d) by four runs inside one OS process (all; last level deleted and redone; everything deleted and redone; last level deleted and redone); all cases non-trivial; distinct by (chain, mode, point). Checks: audit files of all outputs equal modulo IDs and timestamps between the two ways, records already on disk keep their ID, and each embedded ancestor record is identical to the audit file of that ancestor."
 	r := NewRng(ctx.Seed)
 	n := 15
 	if ctx.Thorough() {
@@ -349,7 +368,9 @@ func checkC11(ctx *Ctx) {
 			ch.Levels[j].TwoOut = false
 		}
 		ch.Fanout = false
-		switch i % 3 {
+		switch i % 4 {
+		case 3:
+			cases = append(cases, c11Case{Chain: ch, Mode: "inproc"})
 		case 0:
 			cases = append(cases, c11Case{Chain: ch, Mode: "runto", Arg: ch.procName(r.Intn(len(ch.Levels) - 1))})
 		case 1:
@@ -358,6 +379,7 @@ func checkC11(ctx *Ctx) {
 			cases = append(cases, c11Case{Chain: ch, Mode: "delete"})
 		}
 	}
+	cases = append(cases, c11Case{Chain: Chain{Inputs: []string{"a.txt", "b.txt"}, Levels: []Level{{}, {}}, Max: 2}, Mode: "inproc"})
 	parallel(len(cases), 6, func(i int) {
 		if ctx.TimeLeft() {
 			runC11(ctx, cases[i])
